@@ -127,7 +127,7 @@ def verify(code=None, filename=DEFAULT_STUDENT_FILENAME, report=MAIN_REPORT,
     if code is None:
         code = report.submission.main_code
         filename = report.submission.main_file
-    if report.submission.load_error:
+    if report.submission is not None and report.submission.load_error:
         source_file_not_found(filename, None, enhance=enhance, report=report, muted=muted)
         report[TOOL_NAME]['success'] = False
         return False
